@@ -478,6 +478,7 @@ def presummary(arr, paths, cmd, opts):
     # size makes parity_create / parity_open fail
     norec = not loaded or all(any(x['size'] is None for x in lv['splits']) for lv in loaded['levels'].values())
     d['parity_access'] = [not (norec and s % bs) for s in psz]
+    d['parity_open'] = [all(os.path.exists(f) for f in fs) and not (norec and s % bs) for fs, s in zip(arr.parity_files, psz)]
     # blockmax after the scan: exact when nothing is pending, else bounded (enough for the -S test used by the scenarios)
     d['blockmax'] = cur_blockmax if not pend else None
     if d['blockmax'] is None:
@@ -554,7 +555,7 @@ def pre_tokens(d, arr):
     for e, m, r, rm, ch, z in d['disks']:
         t += [str(e), str(m), str(r), str(rm), str(ch), b(z)]
     t += [b(d['scan_need_write']), str(d['blockmax']), str(d['used'])]
-    t += [''.join(map(b, d['parity_access'])) or '-', ','.join(map(str, d['parity_blocks'])) or '-',
+    t += [''.join(map(b, d['parity_access'])) or '-', ''.join(map(b, d['parity_open'])) or '-', ','.join(map(str, d['parity_blocks'])) or '-',
           ''.join(map(b, d['parity_resize'])) or '-', ''.join(map(b, d['parity_modified'])) or '-']
     t += [b(d.get('prehash_fail', False)), b(d['sync_work']), b(d.get('sync_errors', False)), b(d['array_empty']),
           str(d.get('scrub_stripes', 0)), b(d.get('scrub_errors', False)), b(d.get('check_errors', False)), b(d['diff'])]
